@@ -54,7 +54,7 @@ def handle : List String → Option String
       | .ok none => "ok"
       | .ok (some (a, b)) => s!"ok {a}-{b}")
   | ["pdecode", p] => do pure (hexOfBytes (percentDecode (← bytesOfHex p)))
-  -- rel <host 0-4> <method> <path> : what handle_cache answers on the fixture tree
+  -- rel <host 0-5> <method> <path> : what handle_cache answers on the fixture tree
   | ["rel", h, m, p, _hdrs] => handle ["rel", h, m, p]
   | ["rel", h, m, p] => do
     let path ← bytesOfHex p
